@@ -306,7 +306,7 @@ def run(prog: Program, rep, tier="quick"):
             sites = [c for c in ast.walk(ff.node) if isinstance(c, ast.Call) and dotted(c.func) == "ord" and c.args
                      and isinstance(c.args[0], ast.Subscript) and isinstance(c.args[0].value, ast.Name)
                      and c.args[0].value.id in ("pkt", "data", "line", "packet")
-                     and "channel" in norm(mm.enclosing_stmt(c)).lower()]
+                     and ("channel" in norm(mm.enclosing_stmt(c)).lower() or "side_band" in q.lower() or "sideband" in q.lower())]
             if not sites:
                 continue
             g = cfg_of(prog, ff)
@@ -350,7 +350,12 @@ def run(prog: Program, rep, tier="quick"):
                         continue
                     t = w.test
                     tests = t.values if isinstance(t, ast.BoolOp) else [t]
+                    # the same exit spelled inside the body: `while True: pkt = read(); if pkt is None: return/break`
+                    for iff in [x for x in ast.walk(w) if isinstance(x, ast.If) and any(isinstance(y, (ast.Return, ast.Break)) for y in x.body + x.orelse)]:
+                        tests = list(tests) + (iff.test.values if isinstance(iff.test, ast.BoolOp) else [iff.test])
                     for tt in tests:
+                        if isinstance(tt, ast.UnaryOp) and isinstance(tt.op, ast.Not):
+                            tt = tt.operand
                         if isinstance(tt, ast.Name) and tt.id in names:
                             n_loops += 1
                             rep.ob("R19.5", rel, ff.qual, f"while {norm(w.test, 60)}", False,
